@@ -301,7 +301,7 @@ Proof.
   destruct (run_inv c hist Hok HH) as [[_ _ _ Hgeom _ He _ _ _ _ _] _].
   destruct (final_cfg_fixed c hist) as (Hvs & _). rewrite Hvs in He.
   set (m := final_state Rops c hist) in *. set (s := spec_run c hist) in *.
-  unfold pmf_value. rewrite Hgeom. set (ixs := all_ix (gsizes (s_geom s))).
+  unfold pmf_value, pmf_shift. rewrite Hgeom. set (ixs := all_ix (gsizes (s_geom s))).
   assert (Hin : In ix ixs) by (apply all_ix_ok; exact Hix).
   unfold grid_max. destruct ixs as [|ix0 r] eqn:Ei; [destruct Hin|].
   cbn [nltb Rops].
